@@ -16,7 +16,7 @@ def generate(ctx):
     r = ctx.rng
     ctx.twins, ctx.prefixed = [], []
     ds = common.docs(ctx, ctx.scale(500, 20000), finite=False)
-    fixed = ['R', 'R;B', 'R;W', 'R;B;B', 'R;W;W', 'R;I(xl0)'.replace('xl0', 'l0'), 'R;I(x0,x0,l0,S' + 'x0~l0)', 'R;I(Sl-1~l0,x-1,x99)',
+    fixed = ['R', 'R;B', 'R;W', 'R;B;B', 'R;W;W', 'R;I(Sx0~l0)', 'R;W;I(Sx0~l0)', 'R;B;I(Sx0~l0)', 'R;I(Sx0~l0);I(Sx0~l0)', 'R;Fe(C;I(Sx0~l0))', 'R;I(xl0)'.replace('xl0', 'l0'), 'R;I(x0,x0,l0,S' + 'x0~l0)', 'R;I(Sl-1~l0,x-1,x99)',
              'R;Fbgt(p(C)|vu1)', 'R;B;Fbgt(p(C)|vu1)', 'R;B;Fbeq(p(C;D61)|vu1)', 'R;Fe(C;D61)', 'Pbgt(p(R;D61)|vu0)', 'Pe(R;B)',
              'R;B;Fbor(band(bge(p(C)|vu1)|ble(p(C)|vu3))|beq(p(C)|vn))', 'R;D61;D62;D63;B', 'R;K61;O62', 'R;W;Fbne(p(C;B)|p(R;D62))',
              'R;I(l2147483647)', 'R;I(Sx-2147483648~l2147483647)', 'R;I(l-2147483648)', 'R;FAb+(p(C)|vu1)', 'R;B;FAu-(vu1)']
